@@ -24,6 +24,7 @@ def spaces(tier):
             dict(size=2, level=2, cfg='K0', t0=['empty'], mut='none', kw=small),
             dict(family='chain3', size=3, level=0, cfg='K0', t0=['empty'], mut='outputs'),
             dict(family='if', size=2, level=0, cfg='K0', t0=['empty', 'file_i'], mut='rel'),
+            dict(family='preobs', size=3, level=0, cfg='K0', t0=['empty', 'dir_d_j'], mut='rel'),
         ]
     return [
         dict(family='observer', size=1, level=l, cfg=c, t0=list(gen.T0S), mut='all') for l in (0, 3) for c in ('K0', 'K1')
@@ -35,6 +36,7 @@ def spaces(tier):
         dict(family='chain3', size=3, level=l, cfg='K0', t0=['empty', 'file_i'], mut='outputs') for l in (0, 3)
     ] + [
         dict(family='if', size=2, level=0, cfg='K0', t0=list(gen.T0S), mut='all'),
+        dict(family='preobs', size=3, level=0, cfg='K0', t0=list(gen.T0S), mut='all'),
     ]
 
 
